@@ -29,3 +29,7 @@ for d in /tmp/seed/out7-C??; do
   id=$(basename $d | sed 's/out7-//')
   if ls $d/*.patch.diff >/dev/null 2>&1; then mkdir -p /verif/seeded-incoming/round7/$id; cp -u $d/*.patch.diff $d/*.demo* $d/*.meta.json /verif/seeded-incoming/round7/$id/ 2>/dev/null; fi
 done
+for d in /tmp/seed/out8-C??; do
+  id=$(basename $d | sed 's/out8-//')
+  if ls $d/*.patch.diff >/dev/null 2>&1; then mkdir -p /verif/seeded-incoming/round8/$id; cp -u $d/*.patch.diff $d/*.demo* $d/*.meta.json /verif/seeded-incoming/round8/$id/ 2>/dev/null; fi
+done
